@@ -272,16 +272,16 @@ func runC20(c *core.Ctx) {
 		ms := p.SSA.MethodSets.MethodSet(types.NewPointer(lsT))
 		for i := 0; i < ms.Len(); i++ {
 			fn := p.SSA.MethodValue(ms.At(i))
-			if fn == nil {
-				continue
+			if fn == nil || !ms.At(i).Obj().Exported() {
+				continue // unexported methods are helpers: they are looked at as part of the exported operations that call them
 			}
-			for _, ci := range core.Calls(fn) {
+			for _, ci := range core.CallsR(fn) {
 				cv := core.CallValue(ci)
 				if cv == nil || !fieldFuncCall(ci, "LinkSystem", "HasherChooser") {
 					continue
 				}
 				escaped := false
-				core.Instrs(fn, func(in ssa.Instruction) {
+				core.InstrsR(fn, func(in ssa.Instruction) {
 					if st, ok := in.(*ssa.Store); ok && extractOf(st.Val, cv, 0) {
 						if _, isAlloc := rootOf(st.Addr).(*ssa.Alloc); !isAlloc {
 							escaped = true
